@@ -17,6 +17,7 @@ RepViol06(r, same) ==
 RepViol07(r, same) ==
   IF ~(same \/ r.ab) THEN {} ELSE
   V(r.ha = r.hb, "equal-terms-hash-differently") \cup V(r.hr_eq, "equal-terms-hash-differently-random-hasher")
+  \cup V(r.ha = r.hb_other_thread, "equal-terms-hash-differently-across-threads")
   \cup V(r.contains, "hashset-misses-equal-term") \cup V(r.map_get, "hashmap-misses-equal-key")
 
 EqHashViol(o) ==
